@@ -14,6 +14,10 @@ def Listed (k : Kernel) (o : PObj) : Prop := âˆƒ x âˆˆ k.procs, x.pid = o.pid âˆ
 /-- executable form of `Listed` (what the driver prints) -/
 def listedB (k : Kernel) (o : PObj) : Bool := k.procs.any fun x => x.pid == o.pid && x.start == o.ghost
 
+/-- zombie flag of the object's own incarnation while it is in the table (what `str(p)` may show then) -/
+def ownZombie (k : Kernel) (o : PObj) : Option Bool :=
+  (k.procs.find? fun x => x.pid == o.pid && x.start == o.ghost).map (Â·.zombie)
+
 /-- two objects denote the same process: same PID, same process start -/
 def SameIncarnation (a b : PObj) : Prop := a.pid = b.pid âˆ§ a.ghost = b.ghost
 
